@@ -19,10 +19,17 @@ pub fn case_seed(base: u64, property: &str, index: u64) -> u64 {
 /// every parse; a short-lived thread keeps workers from bloating) and evaluates its oracle.
 pub fn run_case(scratch: &mut Scratch, case: &Case, index: u64) -> Option<(Verdict, CaseReport)> {
     std::thread::scope(|s| {
+        // pyxis itself runs on a thread with Rust's default stack (2 MiB): what it needs must
+        // fit in there, an overflow aborts the process and is reported as a killed case. The
+        // harness's own work (models, syn over the output) gets a roomy stack.
+        let results = std::thread::Builder::new()
+            .spawn_scoped(s, || execute(scratch, case))
+            .expect("spawn build thread")
+            .join()
+            .ok()?;
         std::thread::Builder::new()
             .stack_size(256 << 20)
-            .spawn_scoped(s, || {
-                let results = execute(scratch, case);
+            .spawn_scoped(s, move || {
                 let mut report = CaseReport {
                     index,
                     family: case.family.clone(),
